@@ -5,3 +5,11 @@ import BB
 #print axioms BB.Props.C01.enc32_sound
 #print axioms BB.Props.C01.encode32_sound
 #print axioms BB.Props.C01.enc32_inj
+#print axioms BB.Props.C07.hi_range
+#print axioms BB.Props.C07.lo_range
+#print axioms BB.Props.C07.hi_lo_sum
+#print axioms BB.Props.C07.hi_lo_sum_exact
+#print axioms BB.Props.C07.utype_accepts_hi
+#print axioms BB.Props.C07.itype_accepts_lo
+#print axioms BB.Props.C07.stype_accepts_lo
+#print axioms BB.Props.C07.pair_rebuilds
